@@ -477,8 +477,12 @@ def run_one(ctx: Any, seed: int, tier: str, replay: Optional[dict] = None) -> di
     uniq: dict = {}
     for v in violations:
         uniq.setdefault((v["oracle"], v["signature"]), v)
+    # a parse that ran into the 60 s wall-clock cap is the one thing in a run that real time decides:
+    # such a run is not comparable between two executions (it is reported, never judged)
+    unstable = probes.get("timeouts", 0) > 0
     return {
-        "digest": digest(log, root),
+        "digest": "UNSTABLE" if unstable else digest(log, root),
+        "unstable": unstable,
         "evaluations": evaluations,
         "nontrivial": nontrivial,
         "violations": list(uniq.values()),
